@@ -189,8 +189,10 @@ def _r1(model, res, c, um):
 
 
 def _r2(model, res, c, um):
-    P_f = Func(um, um.functions['parse_date'])
-    S_f = Func(um, um.functions['serialize_date'])
+    # the converters as the module binds them (decorators applied: a singledispatch function with its registrations)
+    _it = Interp(model)
+    P_f = _it.module_value(um, 'parse_date') or Func(um, um.functions['parse_date'])
+    S_f = _it.module_value(um, 'serialize_date') or Func(um, um.functions['serialize_date'])
     site_p = '%s:parse_date' % um.name
     site_s = '%s:serialize_date' % um.name
     try:
@@ -229,6 +231,24 @@ def _r2(model, res, c, um):
         if not ok:
             res.violation('R2', site_p + ':negative-serial', um.where(um.functions['parse_date']),
                           'serials in %r (dates before 1900) must convert to #NUM!; got %r' % (neg, o.value), func='parse_date')
+    # ---- S depends on the date-time itself, not on a rounded copy of it
+    for o in s_outs:
+        foreign = set()
+        if isinstance(o.value, Aff):
+            foreign |= set(v_ for v_ in o.value.coeffs if v_ != 'x')
+        for (t_, alt_, s_) in o.notes:
+            if isinstance(s_, AffCmp):
+                foreign |= set(v_ for v_ in s_.coeffs if v_ != 'x')
+        rounded = sorted(v_ for v_ in foreign if v_.startswith(('floor:', 'trunc:')))
+        res.ob('R2', site_s, {'trace': repr(o.value), 'rule': 'the serial is computed from the date-time, not from a rounded copy'}, not rounded)
+        if rounded:
+            res.violation('R2', site_s + ':rounded-time', um.where(um.functions['serialize_date']),
+                          'the serial is computed from the date-time rounded to whole seconds (%s): date-times within one second share a serial, '
+                          'so the map is not strictly increasing and converting back does not return the date-time' % ', '.join(rounded),
+                          func='serialize_date')
+            return
+        if foreign:
+            raise AnalysisError('a date->serial trace depends on %s: not a function of the date-time alone' % sorted(foreign))
     # ---- S: strictly increasing
     Sv = [(iv, val(o), o) for iv, o in S]
     for iv, v, o in Sv:
